@@ -73,3 +73,96 @@ func isIdentByte(b byte) bool {
 }
 
 type MacroDef struct{ Name, Param, Body string }
+
+func pureResultName(callee string, i int) string {
+	return "pure_" + sanitize(callee) + "_r" + itoa(i)
+}
+
+// dynamic values in contracts
+func init() {
+	iface := types.NewInterfaceType(nil, nil)
+	val := func(t *Term) *Value { return &Value{T: iface, L: []*Term{t}} }
+	specFuncs["boolv"] = func(env *SpecEnv, a []*Value) *Value { return val(VCtor("VBool", a[0].One())) }
+	specFuncs["intv"] = func(env *SpecEnv, a []*Value) *Value { return val(VCtor("VInt", coerceInt(a[0], tInt).One())) }
+	specFuncs["strv"] = func(env *SpecEnv, a []*Value) *Value { return val(VCtor("VStr", a[0].One())) }
+	specFuncs["nilv"] = func(env *SpecEnv, a []*Value) *Value { return val(VNil) }
+	specFuncs["isint"] = func(env *SpecEnv, a []*Value) *Value { return &Value{T: tBool, L: []*Term{Is("VInt", a[0].One())}} }
+	specFuncs["isbool"] = func(env *SpecEnv, a []*Value) *Value { return &Value{T: tBool, L: []*Term{Is("VBool", a[0].One())}} }
+	specFuncs["isstr"] = func(env *SpecEnv, a []*Value) *Value { return &Value{T: tBool, L: []*Term{Is("VStr", a[0].One())}} }
+	specFuncs["intof"] = func(env *SpecEnv, a []*Value) *Value { return &Value{T: tInt, L: []*Term{VSel("int_of", a[0].One())}} }
+	specFuncs["boolof"] = func(env *SpecEnv, a []*Value) *Value { return &Value{T: tBool, L: []*Term{VSel("b_of", a[0].One())}} }
+	specFuncs["strof"] = func(env *SpecEnv, a []*Value) *Value { return &Value{T: tString, L: []*Term{VSel("str_of", a[0].One())}} }
+	// res("vm.add", a, b): the result of the pure function applied to these arguments
+	specFuncs["res"] = func(env *SpecEnv, a []*Value) *Value {
+		name := strLitText[a[0].One()]
+		fn := env.e.W.Func(name)
+		if fn == nil {
+			panic("spec: res of unknown function " + name)
+		}
+		T := fn.Signature.Results().At(0).Type()
+		var as []*Term
+		for _, x := range a[1:] {
+			as = append(as, x.L...)
+		}
+		return &Value{T: T, L: []*Term{UF(pureResultName(name, 0), leafSorts(T)[0], as...)}}
+	}
+	// boxed(x): a bool/int/string/float spec value as the dynamic value the VM pushes
+	specFuncs["boxed"] = func(env *SpecEnv, a []*Value) *Value {
+		if types.IsInterface(a[0].T) {
+			return a[0]
+		}
+		return val(boxSimple(a[0].T, a[0].L))
+	}
+}
+
+var _ = strings.TrimSpace
+
+func init() {
+	iface := types.NewInterfaceType(nil, nil)
+	// lib("strings.Contains", a, b): the library function as the engine models it (uninterpreted, pure)
+	specFuncs["lib"] = func(env *SpecEnv, a []*Value) *Value {
+		name := strLitText[a[0].One()]
+		var as []*Term
+		for _, x := range a[1:] {
+			as = append(as, x.L...)
+		}
+		switch name {
+		case "regexp.MatchString":
+			// (value, error) family of lib.go: the value component
+			return &Value{T: tBool, L: []*Term{UF(sanitize(name)+"_v0", SBool, as...)}}
+		}
+		return &Value{T: tBool, L: []*Term{UF(sanitize(name)+"_r00", SBool, as...)}}
+	}
+	// rtype("int"): the reflect.Type of a predeclared type
+	specFuncs["rtype"] = func(env *SpecEnv, a []*Value) *Value {
+		name := strLitText[a[0].One()]
+		tn, ok := types.Universe.Lookup(name).(*types.TypeName)
+		if !ok {
+			panic("spec: rtype of unknown predeclared type " + name)
+		}
+		return &Value{T: env.e.W.reflectType(), L: []*Term{typeCodeTerm(tn.Type())}}
+	}
+	// ptrof(v): the pointer held by a dynamic value
+	specFuncs["ptrof"] = func(env *SpecEnv, a []*Value) *Value {
+		return &Value{T: nil, L: []*Term{VSel("ptr_of", a[0].One())}}
+	}
+	// vlen(v), velem(v, k): length and k-th element of a dynamic value that is a []interface{} / []int
+	specFuncs["vlen"] = func(env *SpecEnv, a []*Value) *Value {
+		return &Value{T: tInt, L: []*Term{VSel("sl_len", a[0].One())}}
+	}
+	specFuncs["velem"] = func(env *SpecEnv, a []*Value) *Value {
+		loc := LocIndex(VSel("sl_ptr", a[0].One()), coerceInt(a[1], tInt).One())
+		return &Value{T: iface, L: []*Term{env.st.Load(loc, SVal)}}
+	}
+	specFuncs["velemint"] = func(env *SpecEnv, a []*Value) *Value {
+		loc := LocIndex(VSel("sl_ptr", a[0].One()), coerceInt(a[1], tInt).One())
+		return &Value{T: tInt, L: []*Term{env.st.Load(loc, SBV(64))}}
+	}
+}
+
+func init() {
+	// base(s): the address of element 0 of a slice (raw location)
+	specFuncs["base"] = func(env *SpecEnv, a []*Value) *Value {
+		return &Value{T: nil, L: []*Term{a[0].L[0]}}
+	}
+}
